@@ -163,6 +163,19 @@ pub fn judge(h: &History, recs: &[StepRec]) -> Result<(u32, u32), Failure> {
                     }
                 }
             }
+            Step::JoinAbp => {
+                // activation by personalisation: joined without any frame on the air
+                joined_model = true;
+                expect_first_uplink = None;
+                if !r.txs.is_empty() {
+                    return Err(Failure::new("abp-transmits-nothing", case(), format!("step {}: ABP activation handed {} frames to the radio", r.index, r.txs.len())));
+                }
+                if let Some(s) = &r.session_after {
+                    if s["fcnt_up"].as_u64() != Some(0) || !s["fcnt_down"].is_null() {
+                        return Err(Failure::new("counters-restart", case(), format!("after ABP activation fcnt_up={} fcnt_down={}", s["fcnt_up"], s["fcnt_down"])));
+                    }
+                }
+            }
             Step::RxcListen(_) => {
                 rxc_accepts_since_join += r.deliveries.iter().filter(|d| matches!(d.verdict, Verdict::Accept { .. } | Verdict::SizeDontCare)).count() as u32;
             }
